@@ -466,6 +466,33 @@ pub fn generate(t: &mut Tape, cfg: &Cfg) -> Program {
     g.p
 }
 
+/// A small program centred on one rarely reached family (specify blocks, assertions, clocking, covergroups, UDPs, …).
+pub fn generate_focus(t: &mut Tape) -> Program {
+    let mut g = Gen {
+        t,
+        p: Program::default(),
+        cfg: Cfg { max_elements: 1, max_items: 2, adversarial_names: true },
+        counter: 0,
+        used: HashSet::new(),
+        vars: Vec::new(),
+        modules: Vec::new(),
+        packages: Vec::new(),
+        in_class: false,
+        in_function: false,
+    };
+    g.focus_text();
+    g.p
+}
+
+/// `generate`, but every fifth program is a focused small one.
+pub fn generate_mixed(t: &mut Tape, cfg: &Cfg) -> Program {
+    if t.chance(1, 5) {
+        generate_focus(t)
+    } else {
+        generate(t, cfg)
+    }
+}
+
 include!("svgen_expr.rs");
 include!("svgen_items.rs");
 include!("svgen_top.rs");
